@@ -87,15 +87,15 @@ Theorem parse_print_comp : forall names t i,
 Proof. exact parse_print_comp_lemma. Qed.
 Print Assumptions parse_print_comp.
 
-(** PARTIAL for -c: names as above, but only NONE and the shapes of rank 1..3 with lengths 1..12 (a complete finite
-    domain).  Missing for the full statement: atoi (print_nat n) = n for all 0 < n < 10^9 and an induction over the
-    rank (up to H4_MAX_VAR_DIMS). *)
-Theorem parse_print_chunk_partial : forall names r lens,
-  names <> [] -> Forall wf_name names -> In (r, lens) chunk_domain ->
+(** The same for -c, full: any non-empty list of well-formed names with NONE, or with a shape of 1 to
+    H4_MAX_VAR_DIMS lengths, each between 1 and 10^9 - 1 (nine digits are all the parser's buffer takes). *)
+Theorem parse_print_chunk : forall names r lens,
+  names <> [] -> Forall wf_name names ->
+  (r = -2 /\ lens = [] \/ r = zlen lens /\ lens <> [] /\ zlen lens <= H4_MAX_VAR_DIMS /\ Forall wf_len lens) ->
   parse_chunk (print_chunk {| ke_names := names; ke_rank := r; ke_lens := lens |}) =
   ROk {| ke_names := names; ke_rank := r; ke_lens := lens |}.
-Proof. exact parse_print_chunk_partial_lemma. Qed.
-Print Assumptions parse_print_chunk_partial.
+Proof. exact parse_print_chunk_lemma. Qed.
+Print Assumptions parse_print_chunk.
 
 (** The strip-mining copy loop of copy_sds (objects of H4TOOLS_MALLOCSIZE bytes or more): the blocks it reads and
     writes, taken in order and each in row-major order, are exactly the cells 0, 1, ..., N-1 of the array -- every
@@ -158,7 +158,9 @@ Example decision_fails : decide ex_options KSds [103; 49; 47; 65]
 Proof. vm_compute. reflexivity. Qed.
 
 Example domains_inhabited : In (COMP_CODE_SKPHUFF, 8) comp_domain /\ In (COMP_CODE_DEFLATE, 9) comp_domain /\
-  In (-2, []) chunk_domain /\ In (1, [7]) chunk_domain /\ Forall wf_name ex_names.
+  Forall wf_name ex_names /\ Forall wf_len [10; 999999999] /\
+  parse_chunk (print_chunk {| ke_names := ex_names; ke_rank := 2; ke_lens := [10; 999999999] |}) =
+  ROk {| ke_names := ex_names; ke_rank := 2; ke_lens := [10; 999999999] |}.
 Proof.
   split.
   { unfold comp_domain. apply in_or_app. right. apply in_or_app. left.
@@ -168,11 +170,9 @@ Proof.
   split.
   { unfold comp_domain. apply in_or_app. right. apply in_or_app. right.
     apply in_map_iff. exists 9. split; [reflexivity|]. vm_compute. tauto. }
-  split; [left; reflexivity|].
-  split.
-  { unfold chunk_domain. right. apply in_or_app. left. apply in_map_iff. exists 7. split; [reflexivity|].
-    vm_compute. tauto. }
-  repeat constructor; vm_compute; try discriminate; intuition discriminate.
+  split; [repeat constructor; vm_compute; try discriminate; intuition discriminate|].
+  split; [repeat constructor; vm_compute; intuition discriminate|].
+  vm_compute. reflexivity.
 Qed.
 
 (** [reflects] holds of the table built from the example entries (checked pointwise for the paths that occur and,
